@@ -1493,11 +1493,11 @@ spec:
         // [C02] a quantity written with the `%` separator is never reinterpreted by the advanced-units path
         (exists|i: int| 0 <= i < old(bp).toks().len() && (#[trigger] old(bp).toks()[i]).kind == TokenKind::Percent) ==> r.is_none() && final(bp).evs() == old(bp).evs(),
         r.is_some() ==> pq_ok(r.unwrap()),     // [C04]
-closure 0 `&Token` ret `b: bool`:
+closure @ `|t| matches!(t.kind, T![%])` `&Token` ret `b: bool`:
         ensures b == (t.kind == TokenKind::Percent)
-closure 1 `TokenKind` ret `b: bool`:
+closure @ `|t| !matches!(t, T![word])` `TokenKind` ret `b: bool`:
         ensures b == (t != TokenKind::Word)
-closure 2 `&Token` ret `b: bool`:
+closure @ `|t| !matches!(t.kind, T![ws] | T![block comment])` `&Token` ret `b: bool`:
         ensures b == !(t.kind == TokenKind::Whitespace || t.kind == TokenKind::BlockComment)
 before `let value_tokens = bp.consume_while(|t| !matches!(t, T![word]));`:
     let ghost c0 = bp.cur();
